@@ -889,7 +889,9 @@ V("twin: mirror with the roles of I and J exchanged throughout", "C10", POINT,
 
 # ------------------------------------------------------------------------------------------------ degenerate arguments of join / meet (E19.join, degenerate part)
 V("skew lines of 3-space are joined without an error", "C02", POINT, "            elif intersect_lines or n == 4:", "            elif intersect_lines and n == 4:", "E19.join", "_join_meet_duality")
-V("single dependent arguments are not reported", "C02", POINT, "        if result.free_indices == 0 and is_zero:", "        if result.free_indices > 0 and is_zero:", "E19.join", "_join_meet_duality")
+V("single dependent arguments are not reported", "C02", POINT, "        if result.free_indices == 0 and is_zero:", "        if result.free_indices > 0 and is_zero:", "E19.join", "_join_meet_duality",
+  extra=[(POINT, "        elif np.any(is_zero):", "        elif result.free_indices > 0 and np.any(is_zero):")])
+V("twin: single dependent arguments reported by the second raise", "C02", POINT, "        if result.free_indices == 0 and is_zero:", "        if result.free_indices > 0 and is_zero:", "silent")
 V("twin: the dependence test written with the free indices first", "C02", POINT, "        if result.free_indices == 0 and is_zero:", "        if is_zero and result.free_indices == 0:", "silent")
 
 
